@@ -8,7 +8,8 @@
      okB bs                       the configured BufferSize (0 = default 64) is 2^k, k <= 15 (1 .. 32768; after fix
                                   9dc1449 the flush test is int(relPos) >= len(buffer), so 32768 is covered too) *)
 From GVL Require Import NList Wire Wrap.
-From GV_receiver Require Import Model Proofs Steps Hist Fate Top.
+From GVG Require Import Kern.
+From GV_receiver Require Import Model Proofs Steps Hist Fate Top Bridge.
 Open Scope Z_scope.
 
 (* inv_reachable: for every transport, every power-of-two buffer size, every history of well-formed
@@ -160,6 +161,40 @@ Example C14_example_bufsize_32768_regression :
   let '(s', evs) := run_ops (init true 32768) (arrivals [101; 103; 102]) in
   delivered_seqs evs = [101; 102; 103] /\ lost s' = 0.
 Proof. vm_compute. split; reflexivity. Qed.
+
+(* THE TRANSLATED TIE.  GVG.Kern is regenerated from pkg/rtpreceiver/receiver.go on every run by tools/go2coq; the
+   k_recv_* definitions are the Go expressions themselves (casts and wrap-around made explicit).  For all uint16
+   sequence numbers and positions, every buffer length B and counter value, the formulas and guards that
+   Model.reorder / Model.process / Model.upd_seq are written with ARE those expressions: relPos, the four branch
+   conditions of reorder, the slot of a displaced packet, the advance of absPos in the drain loop, the loss count of a
+   flush; on the reliable transport the loss count; the cycle test diff < -0x0FFF. *)
+Theorem C14_receiver_reorder_kernels_are_the_code : forall B a neg last seq,
+  u16 seq -> u16 last -> u16 a ->
+  let r := k_recv_relpos seq last in
+  r = s16 (w16 (seq - last - 1)) /\ i16 r /\
+  k_recv_behind r = (r <? 0) /\
+  k_recv_reset (neg + 1) B = (B <? neg + 1) /\
+  k_recv_full r B = (B <=? r) /\
+  k_recv_gap r = negb (r =? 0) /\
+  (0 <= r -> k_recv_slot a r B = slotz B a r) /\
+  k_recv_abs_mask (w16 (a + 1)) B = slotz B a 1 /\
+  (forall n, 0 <= n <= 65537 -> k_recv_lost_flush r n = w64 (r - n + 1)).
+Proof. exact reorder_kernels_are_the_code. Qed.
+Print Assumptions C14_receiver_reorder_kernels_are_the_code.
+
+Theorem C14_receiver_accounting_kernels_are_the_code : forall seq last,
+  u16 seq -> u16 last ->
+  k_recv_lost_tcp seq last = w16 (seq - last - 1) /\
+  k_recv_cycle_cond (k_recv_cycle_diff seq last) = (seq - last <? -4095).
+Proof. intros seq last Hs Hl. split; [apply bridge_lost_reliable|apply bridge_cycle]; assumption. Qed.
+Print Assumptions C14_receiver_accounting_kernels_are_the_code.
+
+(* the translated kernels compute: 65535 -> 2 is a forward step of 3 (relPos 2), a displaced packet goes to slot
+   (absPos + relPos) mod B, 0 after 65535 is a cycle *)
+Example C14_example_kernels :
+  k_recv_relpos 2 65535 = 2 /\ k_recv_relpos 65535 2 = -4 /\ k_recv_slot 62 5 64 = 3 /\
+  k_recv_cycle_cond (k_recv_cycle_diff 0 65535) = true /\ k_recv_cycle_cond (k_recv_cycle_diff 4096 8191) = false.
+Proof. vm_compute. repeat split. Qed.
 
 (* F12 on the model: B = 4, arrivals 1 3 4 6 5 7..12: 5 is missing from the deliveries, lost = 2 (numbers 2 and 5) *)
 Example C14_example_f12 : exists s' evs, run_ops (init true 4) (arrivals f12_seqs) = (s', evs) /\
